@@ -6,7 +6,7 @@ Inductive case :=
 | Case (cfg : config)
        (tscript : list (cluster * list tanswer))   (* per cluster: answers to its 1st, 2nd, ... TokenReview *)
        (sscript : list (cluster * list sanswer))   (* per cluster: answers to its 1st, 2nd, ... SubjectAccessReview *)
-       (tr : list (op * out)).                     (* ops with what the real authenticator / authorizer did *)
+       (tr : list (xop * xout)).                   (* ops with what the real authenticator / authorizer did *)
 
 (* a script that runs out answers with a plain (non-retriable) failure tagged 0, on both sides *)
 Definition t_default : tanswer := TFail 0 false.
@@ -18,8 +18,8 @@ Definition eval (c : case) : list bool :=
   | Case cfg tscr sscr tr =>
       let torc := script_orc t_default tscr in
       let sorc := script_orc s_default sscr in
-      let agree := forall2b (fun (m : op * out) (o : op * out) => out_eqb (snd m) (snd o))
-                            (run cfg torc sorc (init cfg) (map fst tr)) tr in
+      let agree := forall2b (fun (m : xop * xout) (o : xop * xout) => xout_eqb (snd m) (snd o))
+                            (runx cfg torc sorc (init cfg) (map fst tr)) tr in
       let '(own, unav, fresh, cached) := spec_ok cfg torc sorc tr in
       [agree; own; unav; fresh; cached]
   end.
